@@ -343,7 +343,7 @@ pub fn cmd_drive(args: &[String]) {
             let d = gen_df(&mut rng, false);
             let sz: usize = d.items.iter().map(|i| 8 + 4 * i.w.len()).sum::<usize>()
                 + d.data.iter().map(|x| x.len()).sum::<usize>();
-            if sz < 160 && !d.items.is_empty() && !d.data.is_empty() {
+            if sz < (if big { 160 } else { 110 }) && !d.items.is_empty() && !d.data.is_empty() {
                 break d;
             }
         };
